@@ -134,3 +134,12 @@ GROUPS += [
           bound="constructed first words: the six documented spellings in every letter case, four non-keywords; at / not at the beginning of the line; loops completely unwound",
           functions=["read_minmax"], props=["C10", "C11", "C17"], assumed=["lp/minmax: static read_minmax called through goto-cc --export-file-local-symbols; strcasecmp is modelled by a plain loop"]),
 ]
+
+GROUPS += [
+    Group("lp/sections", "lp_sections.c", tus=["lp_mpq.c", "read_lp_mpq.c", "util.c", "allocrus.c"], model=MODEL, defines=["QSV_GMP_TOKENS"], dfcc=False, export_static=True, unwind=12, kind="bounded", namebuf=16, leak=True, timeout=1200, mem_gb=6, object_bits=10,
+          remove_bodies=["__CPROVER_file_local_lp_mpq_c_" + f for f in ["read_objective", "read_constraints", "read_bounds", "read_integer"]] + ["mpq_ILLread_lp_state_init", "mpq_ILLread_lp_state_next_field", "mpq_ILLread_lp_state_prev_field", "mpq_ILLlp_error", "mpq_ILLlp_warn"],
+          bound="every choice of the section words the scanner may deliver (8 words, at / not at the beginning of a line, end of file or not) and every outcome of the section bodies; loops completely unwound; reader buffer capacity 16",
+          flags=["--no-malloc-may-fail"], must_fail=["reach_end", "reach_accepted_with_bounds_and_integers", "reach_rejected_after_constraints"],
+          functions=["ILLread_lp", "read_problem_name", "read_minmax", "ILLread_lp_state_keyword", "ILLtest_lp_state_keyword", "ILLread_lp_state_bad_keyword"],
+          props=["C10", "C11", "C18", "C17"], assumed=["lp/sections: the section bodies (read_objective, read_constraints, read_bounds, read_integer), the field scanner, the symbol table constructor and the fill-in steps are ghost-recording stubs with arbitrary results; strcasecmp is modelled by a plain loop; GMP model variant TOKENS"]),
+]
